@@ -8,6 +8,7 @@ import (
 	"fmt"
 	"net"
 	"net/http"
+	"strconv"
 
 	"github.com/go-chi/chi"
 	"go.amzn.com/lambda/appctx"
@@ -87,7 +88,8 @@ func NewServer(
 
 // Listen on port
 func (s *Server) Listen() error {
-	addr := fmt.Sprintf("%s:%d", s.host, s.port)
+	// JoinHostPort, not "%s:%d": the host may be an IPv6 literal, which needs its brackets back
+	addr := net.JoinHostPort(s.host, strconv.Itoa(s.port))
 
 	ln, err := net.Listen("tcp", addr)
 	if err != nil {
@@ -143,7 +145,7 @@ func (s *Server) Port() int {
 
 // URL is full server url for specified endpoint
 func (s *Server) URL(endpoint string) string {
-	return fmt.Sprintf("http://%s:%d%s%s", s.Host(), s.Port(), version20180601, endpoint)
+	return fmt.Sprintf("http://%s%s%s", net.JoinHostPort(s.Host(), strconv.Itoa(s.Port())), version20180601, endpoint)
 }
 
 // Close forcefully closes listeners & connections
